@@ -7,8 +7,14 @@ import "github.com/dcaiafa/lox/zz_verif/vrt"
 // vQual gives a production an arbitrary precedence (any int; <= 0 means "no
 // qualifier", which is how the front end leaves unqualified productions) and an
 // arbitrary associativity.
+// vSetInt stores v into an integer field of whatever integer type it has (the
+// harness must keep compiling if the field's type is refactored).
+func vSetInt[T ~int | ~int8 | ~int16 | ~int32 | ~int64 | ~uint | ~uint8 | ~uint16 | ~uint32 | ~uint64](dst *T, v int) {
+	*dst = T(v)
+}
+
 func vQual(p *Prod, name string) {
-	p.Precedence = vrt.Int(name + ".prec")
+	vSetInt(&p.Precedence, vrt.Int(name+".prec"))
 	p.Associativity = Associativity(vrt.IteInt(vrt.Bool(name+".right"), int(Right), int(Left)))
 }
 
